@@ -61,3 +61,176 @@ symmetric_moving_average = REG.add(Contract(
     calls={"np.empty": _np_empty_like},
     call_names=("symmetric_moving_average",),
 ))
+
+
+# --------------------------------------------------------------------------------------
+# _replace_merged  (peak_merging.py): integer / index structure, rows copied whole
+# --------------------------------------------------------------------------------------
+FM = "strax/processing/peak_merging.py"
+
+# a peak-like row: the fields every interval carries plus a float and a waveform field, so that "copied whole" is checked on
+# scalar, real and 2-D fields alike (the row copy of the engine copies every declared field; the real dtype has more fields of
+# the same three shapes)
+PEAKROWS = RowsT(time="int", length="int", dt="int", channel="int", n_hits="int", area="real", data="real2")
+_PK_SCALARS = ("time", "length", "dt", "channel", "n_hits", "area")
+
+if z3 is not None:
+    _RM_CUM = z3.Function("rm_cum", z3.IntSort(), z3.IntSort())
+
+
+def _rm_cum(S, sw, w):
+    """number of original rows inside the first w skip windows"""
+    if S.symbolic:
+        return _RM_CUM(w)
+    return int(sum(int(sw.arr[v][1]) - int(sw.arr[v][0]) for v in range(int(w))))
+
+
+def _rm_s(sw, w):
+    return sw.at2(w, 0)
+
+
+def _rm_e(sw, w):
+    return sw.at2(w, 1)
+
+
+def _rm_row_eq(S, dst, i, src, j):
+    if not S.symbolic:
+        i, j = int(i), int(j)
+        return 0 <= i < dst.n and 0 <= j < src.n and dst.arr[i].tobytes() == src.arr[j].tobytes()
+    # the waveform is compared as a whole (array equality), which is what copying a row establishes
+    return S.And(*[dst.f(f, i) == src.f(f, j) for f in _PK_SCALARS], dst.f("data", i) == src.f("data", j))
+
+
+def _rm_windows_ok(S, sw, m, n):
+    return S.And(sw.n == m, m >= 1,
+                 S.forall(0, m, lambda w: S.And(0 <= _rm_s(sw, w), _rm_s(sw, w) < _rm_e(sw, w), _rm_e(sw, w) <= n)),
+                 S.forall(0, m - 1, lambda w: _rm_e(sw, w) <= _rm_s(sw, w + 1)))
+
+
+def _rm_gap_lo(S, sw, w):
+    """first original row after window w-1 (0 for w = 0)"""
+    if S.symbolic:
+        return z3.If(w == 0, z3.IntVal(0), _rm_e(sw, w - 1))
+    return 0 if int(w) == 0 else int(_rm_e(sw, int(w) - 1))
+
+
+def _rm_gap_hi(S, sw, w, m, n):
+    """one past the last original row before window w (n for w = m)"""
+    if S.symbolic:
+        return z3.If(w == m, n, _rm_s(sw, w))
+    return int(n) if int(w) == int(m) else int(_rm_s(sw, int(w)))
+
+
+def _rm_placed(S, res, orig, merge, sw, m, n, n_windows_done, orig_upto, below):
+    """merged rows of the windows done and original rows below orig_upto sit where the definition puts them (all of them
+    below the write position ``below``): merge[w] at (rows kept before window w) + w, an original row i of the gap before
+    window w at i - cum(w) + w."""
+    def pos_ok(p):
+        return S.And(0 <= p, p < below)
+    return [S.forall(0, n_windows_done, lambda w: S.And(
+                pos_ok(_rm_s(sw, w) - _rm_cum(S, sw, w) + w),
+                _rm_row_eq(S, res, _rm_s(sw, w) - _rm_cum(S, sw, w) + w, merge, w))),
+            S.forall2(0, m + 1, 0, orig_upto, lambda w, i: S.Implies(
+                S.And(_rm_gap_lo(S, sw, w) <= i, i < _rm_gap_hi(S, sw, w, m, n)),
+                S.And(pos_ok(i - _rm_cum(S, sw, w) + w), _rm_row_eq(S, res, i - _rm_cum(S, sw, w) + w, orig, i))))]
+
+
+def _rm_requires(S, a):
+    n, m = a.orig.n, a.merge.n
+    out = [("one skip window per merged row: non-empty, inside the original array, in order and disjoint",
+            _rm_windows_ok(S, a.skip_windows, m, n)),
+           ("the result has room for exactly the rows kept plus the merged rows",
+            a.result.n == n - _rm_cum(S, a.skip_windows, m) + m)]
+    if S.symbolic:
+        eng = S.eng
+        out.append(("a skip window is a pair (first row skipped, one past the last)", eng.row_width(a.skip_windows.arr.base, "") == 2))
+        out.append(("waveforms of the three arrays have one width",
+                    S.And(eng.row_width(a.result.arr.base, "data") == eng.row_width(a.orig.arr.base, "data"),
+                          eng.row_width(a.merge.arr.base, "data") == eng.row_width(a.orig.arr.base, "data"))))
+    return out
+
+
+def _rm_cum_axioms(S, a):
+    """definition of the ghost function cum (unfolding) + the inductive lemma instance (proved separately, see RM_LEMMA)"""
+    if not S.symbolic:
+        return []
+    sw, m, n = a.skip_windows, a.merge.n, a.orig.n
+    w = z3.Int("rm_w")
+    defn = z3.And(_RM_CUM(0) == 0,
+                  z3.ForAll([w], z3.Implies(z3.And(0 <= w, w < m),
+                                            _RM_CUM(w + 1) == _RM_CUM(w) + _rm_e(sw, w) - _rm_s(sw, w)),
+                            patterns=[_RM_CUM(w + 1)]))
+    v = z3.Int("rm_v")
+    lem = z3.Implies(S.b(_rm_windows_ok(S, sw, m, n)),
+                     z3.ForAll([v], z3.Implies(z3.And(0 <= v, v <= m),
+                                               z3.And(_RM_CUM(m) - _RM_CUM(v) <= n - _rm_gap_lo(S, sw, v),
+                                                      0 <= _RM_CUM(v), _RM_CUM(v) <= _rm_gap_lo(S, sw, v))),
+                               patterns=[_RM_CUM(v)]))
+    from contracts import lemmas as LM
+    pw = LM.disjoint_instance(S, lambda i: _rm_s(sw, i), lambda i: _rm_e(sw, i), m)
+    return [("definition of cum(w) = rows inside the first w windows", defn),
+            ("rows inside the windows from v on fit behind window v-1", lem), pw]
+
+
+def _rm_inv(S, a):
+    sw, m, n, k = a.skip_windows, a.merge.n, a.orig.n, a.k_
+    wi = a.window_i
+    in_window = S.max(0, k - _rm_gap_hi(S, sw, wi, m, n))      # rows of the current window already skipped
+    return [
+        ("shape", S.And(a.n_orig == n, 0 <= wi, wi <= m)),
+        ("the current window is the first one not yet replaced",
+         S.And(S.Implies(wi < m, S.And(a.skip_start == _rm_s(sw, wi), a.skip_end == _rm_e(sw, wi), k <= _rm_e(sw, wi))),
+               S.Implies(wi == m, S.And(a.skip_start > n, a.skip_end > n)),
+               S.Implies(wi > 0, _rm_e(sw, wi - 1) < k))),
+        ("result_i counts the rows written: rows kept so far plus windows replaced",
+         S.And(a.result_i >= 0, a.result_i == k - _rm_cum(S, sw, wi) - in_window + wi)),
+        ("merged rows of the windows replaced so far are in place", _rm_placed(S, a.result, a.orig, a.merge, sw, m, n, wi, k, a.result_i)[0]),
+        ("original rows kept so far are in place", _rm_placed(S, a.result, a.orig, a.merge, sw, m, n, wi, k, a.result_i)[1]),
+    ]
+
+
+def _rm_ens(S, a, r):
+    sw, m, n = a.skip_windows, a.merge.n, a.orig.n
+    pl = _rm_placed(S, a.result, a.orig, a.merge, sw, m, n, m, n, a.result.n)
+    return [("every merged row is in the result, whole, at the position of its skip window among the kept rows", pl[0]),
+            ("every original row outside the skip windows is in the result, whole, in its original order "
+             "(the result has exactly as many rows as these two clauses place, so nothing else is in it)", pl[1])]
+
+
+def _rm_lemma(S):
+    """Induction over the windows, downward from m for the 'fits behind' half and upward for cum(v) <= end of window v-1."""
+    s = z3.Array("rml_s", z3.IntSort(), z3.IntSort())
+    e = z3.Array("rml_e", z3.IntSort(), z3.IntSort())
+    cum = z3.Function("rml_cum", z3.IntSort(), z3.IntSort())
+    m, n, d = z3.Ints("rml_m rml_n rml_d")
+    w = z3.Int("rml_w")
+    hyp = [m >= 1, n >= 0,
+           z3.ForAll([w], z3.Implies(z3.And(0 <= w, w < m), z3.And(0 <= s[w], s[w] < e[w], e[w] <= n))),
+           z3.ForAll([w], z3.Implies(z3.And(0 <= w, w < m - 1), e[w] <= s[w + 1])),
+           cum(0) == 0,
+           z3.ForAll([w], z3.Implies(z3.And(0 <= w, w < m), cum(w + 1) == cum(w) + e[w] - s[w]))]
+    lo = lambda v: z3.If(v == 0, z3.IntVal(0), e[v - 1])
+    P = lambda v: cum(m) - cum(v) <= n - lo(v)
+    Q = lambda v: z3.And(0 <= cum(v), cum(v) <= lo(v))
+    return [("fits-behind, base: v = m", hyp, P(m)),
+            ("fits-behind, step: v+1 -> v", hyp + [0 <= d, d < m, P(d + 1)], P(d)),
+            ("cum below the previous window's end, base: v = 0", hyp, Q(z3.IntVal(0))),
+            ("cum below the previous window's end, step: v -> v+1", hyp + [0 <= d, d < m, Q(d)], Q(d + 1))]
+
+
+from pyvc.runner import Lemma  # noqa: E402
+
+RM_LEMMA = Lemma("rows inside ordered disjoint skip windows fit between the windows", _rm_lemma,
+                 doc="downward / upward induction over the window index; the induction principle itself is the only trusted step")
+
+_replace_merged = REG.add(Contract(
+    FM, "_replace_merged",
+    params=dict(result=PEAKROWS, orig=PEAKROWS, merge=PEAKROWS, skip_windows=ArrT("int", dims=2)),
+    requires=_rm_requires,
+    ensures=_rm_ens,
+    raises={},
+    loops={1: Loop(_rm_inv)},
+    modifies=["result"],
+    lemma_facts=_rm_cum_axioms,
+    call_names=("_replace_merged",),
+))
